@@ -38,7 +38,9 @@ fn main() {
     }
     let (prop, tier, seed, outfile) = (args[1].as_str(), args[2].as_str(), args[3].parse::<u64>().unwrap_or(0), args[4].as_str());
     // panics are observations: keep them quiet
-    std::panic::set_hook(Box::new(|_| {}));
+    if std::env::var("VERIF_PANIC_MSG").is_err() {
+        std::panic::set_hook(Box::new(|_| {}));
+    }
     let mut out = out::Out::new(outfile);
     match prop {
         "C01" => { out.note("header", serde_json::json!(c01::HEADER)); c01::run(tier, seed, &mut out) }
